@@ -134,6 +134,8 @@ def main(argv=None):
         for f in res.violations:
             print(f"  finding {f.key}: {f.message}  @ {f.where}")
         print(f"VIOLATION property={prop} replay={viol_path}")
+    elif os.path.exists(viol_path):
+        os.remove(viol_path)        # a replay file of an earlier run on another tree says nothing about this one
     if selftest is not None:
         print(f"[selftest] {selftest['detected']}/{selftest['applied']} mutants detected, "
               f"{selftest['silent_twins']}/{selftest['twins']} twins silent, {selftest['stale']} stale")
